@@ -808,6 +808,21 @@ func (s *Silences) indexSilence(sil *pb.Silence) {
 	}
 }
 
+// reindexSilence moves a silence whose stored version was replaced by a merge
+// to the end of the version index under a new store version. Without this,
+// caches built on the previous store version (see Silencer.Mutes) would never
+// look at the silence again, e.g. when a peer extended a silence that has
+// already ended locally.
+func (s *Silences) reindexSilence(sil *pb.Silence) {
+	for i, sv := range s.vi {
+		if sv.id == sil.Id {
+			s.vi = append(s.vi[:i], s.vi[i+1:]...)
+			break
+		}
+	}
+	s.indexSilence(sil)
+}
+
 func (s *Silences) getSilence(id string) (*pb.Silence, bool) {
 	msil, ok := s.st[id]
 	if !ok {
@@ -1315,6 +1330,8 @@ func (s *Silences) Merge(b []byte) error {
 		if merged {
 			if added {
 				s.indexSilence(e.Silence)
+			} else {
+				s.reindexSilence(e.Silence)
 			}
 			if !cluster.OversizedMessage(b) {
 				// If this is the first we've seen the message and it's
